@@ -235,8 +235,9 @@ func (p *process) cleanup(cancel context.CancelFunc) {
 	applyMiddleware(p.context.receiver.Receive, p.Opts.Middleware...)(p.context)
 	// Leave the parent only now: a parent that is stopping waits for the children
 	// it still lists, and must not handle Stopped before this process has.
+	// The parent can have spawned our id again meanwhile, that entry is not ours.
 	if p.context.parentCtx != nil {
-		p.context.parentCtx.children.Delete(p.pid.ID)
+		p.context.parentCtx.children.DeleteIf(p.pid.ID, func(pid *PID) bool { return pid == p.pid })
 	}
 
 	p.context.engine.BroadcastEvent(ActorStoppedEvent{PID: p.pid, Timestamp: time.Now()})
